@@ -300,6 +300,9 @@ def _classes(S, nsamples, with_classes):
     # class weights as DataSet.split_one_vs_others produces them: 1 for the class itself, a negative weight in [-1, 0) for the others
     # (-1 balanced, -1/4 stands for an unbalanced one-vs-others split); concrete values chosen by the solver keep the obligations linear
     W = (1.0, -1.0, -0.25)
+    if nsamples > 1:
+        # several samples: two patterns per sample (the first one carries the unbalanced weight) - bounds the number of labellings
+        return np.array([((1.0, -0.25) if m == 0 else (1.0, -1.0))[S.choice('cls%d' % m, 2)] for m in range(nsamples)])
     return np.array([W[S.choice('cls%d' % m, len(W))] for m in range(nsamples)])
 
 
